@@ -864,3 +864,59 @@ func TestC05StaleEnum(t *testing.T) {
 			return err
 		})
 }
+
+// ---- FAULT_ENUM: a failing Delete of a superseded snapshot must not put the instance's newest one at risk ----
+
+type enumC05Del struct {
+	Native bool `json:"native"`
+	Faults int  `json:"faults"` // failing Delete calls in the second cleaner run
+	Merged bool `json:"merged"` // the cleaner's instance has merged the peer's snapshots (and uploaded) before
+}
+
+func TestC05DeleteFaultEnum(t *testing.T) {
+	vcore.RunEnum(t, vcore.Config{Property: "C05", Inflight: true,
+		Rule: "fault enumeration: B publishes twice (the second snapshot holds the only copy of k2); A's cleaner (keep interval 10 min) runs when it first sees them, 11 minutes later with its first {1,2} Delete calls failing, and twice more a minute apart - i.e. within the keep interval of the failed deletion; B's newest snapshot must survive every run (invariants after every bucket mutation); {A merged B's data and uploaded before, or not} x {native, shadow}; non-trivial = a Delete failed"},
+		func(yield func(enumC05Del) bool) {
+			for _, native := range []bool{true, false} {
+				for _, f := range []int{1, 2} {
+					for _, m := range []bool{false, true} {
+						if !yield(enumC05Del{Native: native, Faults: f, Merged: m}) {
+							return
+						}
+					}
+				}
+			}
+		},
+		func(e enumC05Del, o *vcore.Obs) error {
+			c := C05Case{Native: e.Native, N: 2, MustKeep: int64(10 * time.Minute), RemoveOld: int64(7 * 24 * time.Hour)}
+			put := func(k int, v string) []SChange { return []SChange{{DBI: 0, Key: k, Op: "put", Val: model.Bytes(v)}} }
+			c.Ops = []C05Op{
+				{Kind: "app", Inst: 1, Changes: put(1, "in-both")},
+				{Kind: "step", Inst: 1, Steps: 40, Until: "sync.before-sleep"},
+				{Kind: "app", Inst: 1, Changes: put(2, "only-in-the-newest")},
+				{Kind: "step", Inst: 1, Steps: 40, Until: "sync.before-sleep"},
+				{Kind: "settle"}, {Kind: "settle"},
+			}
+			if e.Merged {
+				c.Ops = append(c.Ops,
+					C05Op{Kind: "step", Inst: 0, Steps: 60, Until: "sync.before-sleep"},
+					C05Op{Kind: "app", Inst: 0, Changes: put(0, "local")},
+					C05Op{Kind: "step", Inst: 0, Steps: 60, Until: "sync.before-sleep"})
+			}
+			var fs []string
+			for i := 0; i < e.Faults; i++ {
+				fs = append(fs, fault.Fail)
+			}
+			c.Ops = append(c.Ops,
+				C05Op{Kind: "clean", Inst: 0, DtNs: 0},
+				C05Op{Kind: "fault", Inst: 0, FKind: "delete", Faults: fs},
+				C05Op{Kind: "clean", Inst: 0, DtNs: int64(11 * time.Minute)},
+				C05Op{Kind: "clean", Inst: 0, DtNs: int64(time.Minute)},
+				C05Op{Kind: "clean", Inst: 0, DtNs: int64(time.Minute)},
+				C05Op{Kind: "clean", Inst: 0, DtNs: int64(11 * time.Minute)},
+			)
+			err := checkC05(c, o)
+			o.NonTrivial(true)
+			return err
+		})
+}
